@@ -308,11 +308,24 @@ func genCT(g *G) (of.Action, *spec.Node) {
 		recirc = uint64(t)
 	}
 	var zsrc, zon uint64
+	// builder history: a zone setter may be called after the other kind was used; the last call is what counts
+	if g.Chance("zone_reset", 1, 4) {
+		if g.Bool("first_range") {
+			f, h := g.HeaderField("zone_src_first")
+			a.ZoneRange(f, of.NewNXRange(2, 9))
+			zsrc, zon = uint64(h), uint64(2<<6|7)
+		} else {
+			z := g.U16("zone_imm_first")
+			a.ZoneImm(z)
+			zsrc, zon = 0, uint64(z)
+		}
+		g.Label("ct_zone_set_twice")
+	}
 	switch g.Pick("zone", 3) {
 	case 1:
 		z := g.U16("zone_imm")
 		a.ZoneImm(z)
-		zon = uint64(z)
+		zsrc, zon = 0, uint64(z) // an immediate zone has no source field
 	case 2:
 		f, h := g.HeaderField("zone_src")
 		first := g.Int("zfirst", 0, 31)
